@@ -821,7 +821,13 @@ class Machine:
                     elif op == "unreachable":
                         raise PathAbort("unreachable executed in " + f["name"])
                     else:
-                        vals[ins["id"]] = self.misc(ins, val)
+                        try:
+                            vals[ins["id"]] = self.misc(ins, val)
+                        except Unsupported as e:
+                            if "unmodelled aggregate" in str(e) and "in function" not in str(e):
+                                src = [i2 for b2 in blocks for i2 in b2 if i2.get("id") == ins["ops"][0][1]]
+                                raise Unsupported("%s in function %s, produced by %r" % (e, f["name"][:100], [(i2.get("op"), i2.get("callee")) for i2 in src][:2]))
+                            raise
                 else:
                     raise Unsupported("block without terminator")
         finally:
@@ -974,6 +980,8 @@ class Machine:
             return x
         if op == "extractvalue":
             x = val(ins["ops"][0])
+            if x is None:
+                raise Unsupported("extractvalue of an unmodelled aggregate (value %r)" % (ins.get("ops"),))
             for i in ins["idx"]:
                 x = x[i]
             return x
@@ -1042,6 +1050,10 @@ class Machine:
         f = self.mod.funcs[name]
         if f["decl"]:
             return self.external(name, args, f, ins)
+        ov = DEFINED_STUBS.get(name)
+        if ov is not None:
+            self.calls[name] = self.calls.get(name, 0) + 1
+            return ov(self, args)
         return self.call_function(f, args)
 
     def malloc(self, n, kind="heap"):
@@ -1433,6 +1445,17 @@ EXTERNALS = {
     "_ZNSt8ios_base4InitC1Ev": _noop, "_ZNSt8ios_base4InitD1Ev": _noop,
     "_ZNSt6chrono3_V212system_clock3nowEv": _noop, "_ZNSt6chrono3_V212steady_clock3nowEv": _noop,
 }
+
+
+def _eigen_cache_sizes(m, a):
+    """Eigen::internal::queryCacheSizes(int& l1, int& l2, int& l3) executes CPUID through inline asm.  Environment stub: a fixed, typical
+    cache hierarchy.  The sizes only choose GEMM blocking factors, never values (stated in the evidence as a stub)."""
+    for p_, v in zip(a[:3], (32768, 262144, 2097152)):
+        m.store(p_, 4, v)
+    return None
+
+
+DEFINED_STUBS = {"_ZN5Eigen8internal15queryCacheSizesERiS1_S1_": _eigen_cache_sizes}
 
 
 def _calloc(m, a):
